@@ -43,6 +43,7 @@ Section Props.
     destruct (manip_oid mfx (m_tbs_pkalg (cc_manip c))) as [pkalg|]; [|discriminate].
     destruct (match m_sigvalue (cc_manip c) with [] => _ | _ => _ end) as [sigv|]; [|discriminate].
     destruct (map_opt _ (cc_exts c)) as [exts|] eqn:Ex; [|discriminate].
+    match goal with H : (if ?X then None else _) = Some _ |- _ => destruct X eqn:?; [discriminate H|] end.
     inversion H; subst; cbn. exists bits.
     split; [exact Ex|]. split; [eapply map_opt_length; eauto|]. split; [reflexivity|]. split; [reflexivity|].
     split; [|split; [|reflexivity]].
@@ -88,12 +89,14 @@ Section Props.
     destruct (manip_oid mfx (m_tbs_pkalg (cc_manip c))) as [pkalg|] eqn:Ep; [|discriminate].
     destruct (match m_sigvalue (cc_manip c) with [] => _ | _ => _ end) as [sigv|] eqn:Esv; [|discriminate].
     destruct (map_opt _ (cc_exts c)) as [exts|] eqn:Ex; [|discriminate].
+    match goal with H : (if ?X then None else _) = Some _ |- _ => destruct X eqn:?; [discriminate H|] end.
     inversion H; subst; clear H. cbn [t_serial t_issuer t_subject t_nb t_na t_iuid t_suid t_version t_inner t_outer t_spki t_sig t_exts sp_alg sp_bits].
     split; [|split].
     - intros t0 H0. unfold gen_tcert in H0. cbn [strip cc_subject cc_serial cc_issuer_uid cc_subject_uid cc_validity cc_keyalg cc_sigalg cc_exts cc_manip
                          no_manip m_version m_outer_sigalg m_sigvalue m_tbs_sigalg m_tbs_pkalg m_tbs_pk manip_oid effective_sigalg] in H0.
       unfold effective_sigalg in Eg. rewrite ?Esn, ?Es, ?Ev, ?Eg, ?Ui, ?Us in H0.
       destruct (map_opt _ (cc_exts c)) as [exts0|] eqn:Ex0 in H0; [|discriminate].
+      try match type of H0 with (if ?X then None else _) = Some _ => destruct X eqn:?; [discriminate H0|] end.
       inversion H0; subst; clear H0. cbn.
       do 7 (split; [reflexivity|]).
       split; [destruct (m_version (cc_manip c)); reflexivity|].
